@@ -104,6 +104,12 @@ def run(ctx):
     sE = [s for s in rd.stores_to(PI + 'E')]
     sS = [s for s in rd.stores_to(PI + 'S')]
     ctx.ob('C19.1', 'reader maps the file and sets T, E, S', len(mm) == 1 and len(sT) == 1 and len(sE) == 1 and len(sS) == 1, 'mmap + three pointers', loc=rd.loc)
+    for m_ in mm:
+        L = rd.get(rd.strip(m_.args[1])) if isinstance(m_.args[1], str) else None
+        okL = L is not None and L.op == 'call' and L.callee == 'lseek' and const_int(L.args[1]) == 0 and const_int(L.args[2]) == 2
+        ctx.ob('C19.1', 'reader maps the whole file from offset 0', okL and const_int(m_.args[5]) == 0,
+               'the mapping covers header, nodes, edges and the string table: length = lseek(fd, 0, SEEK_END), offset 0 (a mapping that '
+               'is header_sz short loses the tail of the string table whenever the file ends just past a page boundary)', loc=m_.loc)
     if len(mm) == 1 and len(sT) == 1 and len(sE) == 1 and len(sS) == 1:
         aT = affine(rd, sT[0].ops[0])
         hs = [t for t in aT if t not in ('', mm[0].id)]
@@ -176,7 +182,13 @@ def run(ctx):
                 ok = l is not None and l.op == 'load' and f.field(l) == PI + fld and same_value(f, f.ap(l.ops[0]).root, src)
             ctx.ob('C19.2', '%s: header field %s set' % (name, fld), ok,
                    'the file header carries num_workers and start_clock; the shrinking copy takes them from its input', loc=f.loc)
-    ctx.floor('C19.2', 20)
+            # ... and is not wiped afterwards: the object initialiser, if it writes the field at all, runs before the field is set
+            inif = w.fn('dr_pi_dag_init')
+            wipes = inif is not None and any(st.op == 'store' and inif.field(st) == PI + fld for st in inif.order)
+            ctx.ob('C19.2', '%s: header field %s survives dr_pi_dag_init' % (name, fld),
+                   not wipes or (bool(sts) and bool(ini) and all(f.dominates_f(ini[0], st) for st in sts)),
+                   'a field set before an initialiser that clears it reads 0 in every converted DAG', loc=(ini[0].loc if ini else f.loc))
+    ctx.floor('C19.2', 24)
     ctx.attempt(rule3_shrink, ctx, w)
     ctx.attempt(rule4_strings, ctx, w)
     ctx.attempt(rule5_growth, ctx)
@@ -1357,6 +1369,11 @@ def rule5_growth(ctx):
 DUMP = 'src/profiler/dr_dump.c'
 READ = 'src/profiler/read_dag.c'
 MUTANTS = [
+    {'name': 'reader maps the file header_sz bytes short (seed5 C19/m3)', 'expect': 'C19.1',
+     'edits': [('src/profiler/read_dag.c', "  a = mmap(NULL, file_sz, PROT_READ | PROT_WRITE,", "  a = mmap(NULL, file_sz - header_sz, PROT_READ | PROT_WRITE,")]},
+    {'name': 'object initialiser clears the header fields the shrinking copy set before calling it (seed5 C19/m1)', 'expect': 'C19.2',
+     'edits': [('src/profiler/dr_dump.c', "  G->S = 0;\n}", "  G->S = 0;\n  G->start_clock = 0;\n  G->num_workers = 0;\n}"),
+               ('src/profiler/dr_dump.c', "  G->num_workers = dr_get_number_of_workers();\n  G->start_clock = start_clock;\n  dr_pi_dag_init(G);", "  dr_pi_dag_init(G);\n  G->num_workers = dr_get_number_of_workers();\n  G->start_clock = start_clock;")]},
     {'name': 'dump stream not closed on the success path (seed4 C19/m2)', 'expect': 'C19.13',
      'edits': [('src/profiler/dr_dump.c', "    dr_free(filename, len);\n    fclose(wp);\n  } else {", "    dr_free(filename, len);\n  } else {")]},
     {'name': 'event heap compares times through an int difference (seed4 C19/m3)', 'expect': 'C19.13',
